@@ -419,7 +419,7 @@ func main() {
 	}
 	setup()
 	// Internal budget: under heavy machine load the run stops early with exhaustive:false (never a violation).
-	run.Budget(150*time.Second, 20*time.Minute)
+	run.Budget(5*time.Minute, 30*time.Minute)
 	if run.Replay != "" {
 		doReplay()
 		return
